@@ -8,6 +8,7 @@ mod findings;
 mod search;
 mod serde_find;
 mod decoder_find;
+mod treehash_find;
 mod unknown_find;
 mod varint_find;
 
